@@ -15,6 +15,7 @@ Command line (child processes):
                                                              protocol, prints READY and waits to be killed
     resume   <family> <file> <ngen>                        -> restores, continues to ngen, prints the trace
 """
+import functools
 import hashlib
 import json
 import math
@@ -411,6 +412,92 @@ class GPEph(Family):
         return st
 
 
+# ---- 5c. GP whose ephemerals are declared with the idiom the library recommends: functools.partial over a METHOD of
+#      the random module (a bound method of the hidden generator object, F32), whose mutation subtrees come from
+#      genHalfAndHalf as well, and whose population size is ODD (anything that alternates / counts calls outside the
+#      two generators is out of step after generation 0 already) ------------------------------------------------
+
+def _make_partial_pset():
+    ps = gp.PrimitiveSet("C17PART", 1)
+    ps.addPrimitive(operator.add, 2)
+    ps.addPrimitive(operator.sub, 2)
+    ps.addPrimitive(operator.mul, 2)
+    ps.addPrimitive(operator.neg, 1)
+    ps.addEphemeralConstant("c17_eph_part_int", functools.partial(random.randint, -100, 100))
+    ps.addEphemeralConstant("c17_eph_part_uni", functools.partial(random.uniform, -1.0, 1.0))
+    ps.renameArguments(ARG0="x")
+    return ps
+
+
+PSET_PART = _make_partial_pset()
+
+
+def eval_part(ind):
+    f = gp.compile(ind, PSET_PART)
+    err = 0.0
+    for x in GP_POINTS:
+        try:
+            d = f(x) - (7.0 * x * x - 3.0)
+            err += d * d
+        except (OverflowError, ValueError):
+            err += 1e6
+    if err != err or err > 1e12:
+        err = 1e12
+    return (err / len(GP_POINTS),)
+
+
+class GPPartial(Family):
+    name = "gp_partial"
+    MU = 11
+    NGEN = 4
+    HASH_SENSITIVE = True
+    SMALL = {"MU": 3}
+
+    def setup(self):
+        tb = self.toolbox
+        tb.register("expr", gp.genHalfAndHalf, pset=PSET_PART, min_=1, max_=3)
+        tb.register("individual", tools.initIterate, IndTree, tb.expr)
+        tb.register("population", tools.initRepeat, list, tb.individual)
+        tb.register("evaluate", eval_part)
+        tb.register("select", tools.selTournament, tournsize=2)
+        tb.register("mate", gp.cxOnePoint)
+        tb.register("expr_mut", gp.genHalfAndHalf, min_=0, max_=2)
+        tb.register("mutate_sub", gp.mutUniform, expr=tb.expr_mut, pset=PSET_PART)
+        tb.register("mutate_eph", gp.mutEphemeral, mode="all")
+        tb.register("mutate_one", gp.mutEphemeral, mode="one")
+        for alias in ("mate", "mutate_sub"):
+            tb.decorate(alias, gp.staticLimit(key=operator.attrgetter("height"), max_value=6))
+
+    def init(self, seed, mapper=map):
+        seed_all(seed)
+        pop = self.toolbox.population(n=self.MU)
+        st = {"gen": 0, "population": pop, "halloffame": tools.HallOfFame(2), "logbook": tools.Logbook()}
+        n = evaluate_invalid(pop, self.toolbox.evaluate, mapper)
+        st["halloffame"].update(pop)
+        self.record(st, pop, n)
+        return st
+
+    def step(self, st, mapper=map):
+        tb = self.toolbox
+        st["gen"] += 1
+        off = tb.select(st["population"], len(st["population"]))
+        off = [tb.clone(ind) for ind in off]
+        for a, b in zip(off[::2], off[1::2]):
+            if random.random() < 0.5:
+                tb.mate(a, b)
+                del a.fitness.values, b.fitness.values
+        muts = [tb.mutate_eph, tb.mutate_sub, tb.mutate_one]
+        for i in range(len(off)):
+            if random.random() < 0.6:             # every ephemeral of a (possibly RESTORED) tree is re-drawn
+                off[i], = muts[(i + st["gen"]) % 3](off[i])
+                del off[i].fitness.values
+        n = evaluate_invalid(off, tb.evaluate, mapper)
+        st["halloffame"].update(off)
+        st["population"] = off
+        self.record(st, off, n)
+        return st
+
+
 # ---- 5a. strongly typed GP with a TYPE HIERARCHY (bool < int) and a user-defined type ----------------------------
 
 class Level(object):
@@ -770,6 +857,47 @@ class GAStream(GAList):
         return st
 
 
+# ---- GA on several DEMES with ring migration (tools.migRing; examples/ga/onemax_multidemic.py) ------------------------
+#      the population is a list of demes; emigrants are chosen with selBest, the replaced ones alternately are the
+#      emigrants themselves (replacement=None) and the worst (selWorst); the migration array is a random permutation
+
+class GADemes(GAList):
+    name = "ga_demes"
+    NDEMES, MU, FREQ = 3, 6, 2
+    NGEN = 4
+    SMALL = {"NDEMES": 2, "MU": 2}
+
+    def init(self, seed, mapper=map):
+        seed_all(seed)
+        demes = [self.toolbox.population(n=self.MU) for _ in range(self.NDEMES)]
+        st = {"gen": 0, "population": demes, "halloffame": tools.HallOfFame(3), "logbook": tools.Logbook()}
+        flat = [ind for d in demes for ind in d]
+        n = evaluate_invalid(flat, self.toolbox.evaluate, mapper)
+        st["halloffame"].update(flat)
+        self.record(st, flat, n)
+        return st
+
+    def step(self, st, mapper=map):
+        tb = self.toolbox
+        st["gen"] += 1
+        demes = st["population"]
+        for i, deme in enumerate(demes):
+            off = tb.select(deme, len(deme))
+            demes[i] = algorithms.varAnd(off, tb, self.CXPB, self.MUTPB)
+        flat = [ind for d in demes for ind in d]
+        n = evaluate_invalid(flat, tb.evaluate, mapper)                 # ONE map call over all demes
+        st["halloffame"].update(flat)
+        if st["gen"] % self.FREQ == 0:
+            k = min(2, self.MU - 1)
+            ring = random.sample(range(len(demes)), len(demes))
+            if (st["gen"] // self.FREQ) % 2:
+                tools.migRing(demes, k, tools.selBest, migarray=ring)
+            else:
+                tools.migRing(demes, k, tools.selBest, replacement=tools.selWorst)
+        self.record(st, flat, n)
+        return st
+
+
 # ---- the packaged loops of deap.algorithms (results of toolbox.map consumed there, algorithms.py:150-152 etc.) ----
 
 PACKAGED = ["pk_simple", "pk_mupluslambda", "pk_mucommalambda", "pk_generateupdate"]
@@ -849,9 +977,9 @@ def shared_inputs_fp():
 
 FAMILIES = dict((f.name, f) for f in (GAList, NSGA2, SPEA2, NSGA3Mem, GPEph, CMAES, CMA1pL, MOCMA,
                                        CMAESShared, CMA1pLShared, MOCMAShared, ESNumpy32, CMAESBig,
-                                       MOCMALt, MOCMAGt, GAStream, GPTyped, GPTypedUser))
+                                       MOCMALt, MOCMAGt, GAStream, GPTyped, GPTypedUser, GPPartial, GADemes))
 PENDING = []
-EXTRA = ["es_np32", "cma_es_big", "mo_cma_lt", "mo_cma_gt", "ga_stream", "gp_typed", "gp_typed_user"]
+EXTRA = ["es_np32", "cma_es_big", "mo_cma_lt", "mo_cma_gt", "ga_stream", "gp_typed", "gp_typed_user", "gp_partial", "ga_demes"]
 
 
 def hash_sensitive(family):
@@ -961,10 +1089,13 @@ def make(family):
     return FAMILIES[name](small=(var == "s"))
 
 
-def run(family, seed, ngen, mapper=map, start=None):
-    """Returns (state, trace): trace[g] = digest of the fingerprint after generation g (from the start point)."""
+def run(family, seed, ngen, mapper=map, start=None, on_gen=None):
+    """Returns (state, trace): trace[g] = digest of the fingerprint after generation g (from the start point).
+    `on_gen(state)` is called after generation 0 / the start point and after every further generation."""
     if family.startswith("pk_"):
         st = run_packaged(family, seed, ngen, mapper)
+        if on_gen is not None:
+            on_gen(st)
         return st, {ngen: digest(fingerprint(st))}
     fam = make(family)
     if start is None:
@@ -973,10 +1104,21 @@ def run(family, seed, ngen, mapper=map, start=None):
     else:
         st = start
         trace = {st["gen"]: digest(fingerprint(st))}
+    if on_gen is not None:
+        on_gen(st)
     while st["gen"] < ngen:
         st = fam.step(st, mapper)
         trace[st["gen"]] = digest(fingerprint(st))
+        if on_gen is not None:
+            on_gen(st)
     return st, trace
+
+
+def script_roots():
+    """The script-level objects a restoring process re-creates by executing the script (not part of a checkpoint):
+    handed to the hidden-state detector as extra roots."""
+    return {"PSET": PSET, "PSET_PART": PSET_PART, "TPSET": TPSET, "TPSET_USER": TPSET_USER,
+            "SHARED_C": SHARED_C, "SHARED_CENTROID": SHARED_CENTROID}
 
 
 def checkpoint(st):
